@@ -27,7 +27,7 @@ From Coq Require Import String.
 From Suiron Require Import Model.Tokenizer Model.ParseRule Proofs.TokenizerProofs Proofs.GoalRoundtrip.
 From Suiron Require Import Model.ParseTerm Model.ParseGoal Model.Show Model.ShowGoal Model.Api.
 From Suiron Require Import Proofs.TermRoundtrip Proofs.TermRoundtripMain Proofs.GoalLeafParse
-  Proofs.RuleRoundtripClosed Proofs.RuleRoundtripCheck Proofs.LoadClosed.
+  Proofs.RuleRoundtripClosed Proofs.RuleRoundtripCheck Proofs.LoadClosed Proofs.LoadLayout.
 From Suiron Require Import Model.Reader Spec.SpecLoad Proofs.ReaderProofs.
 Open Scope N_scope.
 Open Scope string_scope.
@@ -39,6 +39,17 @@ Theorem C21_closed_load : forall rs L kb,
   load_kb_from_file api_parse_rule kb (render L (map rule_text rs)) =
   (do kb' <- add_rules kb rs; Ok (kb', true)).
 Proof. exact load_closed. Qed.
+
+(* the same with a condition on the layout that is checked by eye: every line break of a rule stands
+   right after `,` `;` `=` or the neck `:-` (never after the sign of a number); indentation, blank
+   lines and comments as `legal` allows *)
+Theorem C21_closed_load_layout : forall rs L kb,
+  Forall closed_rule rs ->
+  legal L (map rule_text rs) = true ->
+  breaks_at_separators L (map rule_text rs) = true ->
+  load_kb_from_file api_parse_rule kb (render L (map rule_text rs)) =
+  (do kb' <- add_rules kb rs; Ok (kb', true)).
+Proof. exact load_closed_layout. Qed.
 
 Theorem C21_closed_load_exact : forall rs L kb,
   Forall closed_rule rs ->
@@ -149,6 +160,7 @@ Check C21_closed_load : forall rs L kb,
   (do kb' <- add_rules kb rs; Ok (kb', true)).
 
 Print Assumptions C21_closed_load.
+Print Assumptions C21_closed_load_layout.
 Print Assumptions C21_closed_load_exact.
 Print Assumptions C21_closed_wf_text.
 Print Assumptions C21_closed_load_checked.
